@@ -1,5 +1,6 @@
 (* C16 -- tree traversal.  Property theorems only; proofs live in Tree/IterFacts.v. *)
 From SV Require Import Iter IterFacts.
+From Coq Require Import Lia.
 
 (* Iterating a node yields the node, then all its descendants in child order (pre-order),
    for every tree; more fuel changes nothing (the iterator is exhausted). *)
@@ -69,3 +70,24 @@ Example C16_example :
   map kind (iter_run 20 (node_into_iter t)) = [3; 0; 4; 1; 0; 5; 6; 0]%N /\
   length (ev_run 40 (iter_event (node_into_iter t))) = 16%nat.
 Proof. vm_compute. split; reflexivity. Qed.
+
+(* ... and this holds for EVERY iterator state, not only a fresh one: whatever nodes are pending
+   (an iterator made from several nodes, or advanced by any number of steps), plain iteration yields
+   the pre-orders of the pending nodes in the order they will be popped, and the event view of the same
+   state yields their bracketings -- so its Enter sequence is the plain iteration. *)
+Theorem C16_any_iterator_state : forall (st : list tree) fuel,
+  (2 * fsize (rev st) < fuel)%nat ->
+  iter_run fuel st = flat_map preorder (rev st) /\
+  ev_run fuel (iter_event st) = flat_map events (rev st) /\
+  enters (ev_run fuel (iter_event st)) = iter_run fuel st.
+Proof.
+  intros st fuel H.
+  assert (E : st = iter_new (rev st)) by (unfold iter_new; now rewrite rev_involutive).
+  assert (A : iter_run fuel st = flat_map preorder (rev st)).
+  { rewrite E at 1. apply iter_new_preorder. lia. }
+  assert (B : ev_run fuel (iter_event st) = flat_map events (rev st)).
+  { rewrite E at 1. now apply iter_events. }
+  split; [exact A|]. split; [exact B|]. rewrite A, B.
+  generalize (rev st) as l. clear. induction l as [|x r IH]; [reflexivity|].
+  cbn [flat_map]. rewrite enters_app, enters_events, IH. reflexivity.
+Qed.
